@@ -20,6 +20,11 @@ F10_WITNESSES = [
 ]
 
 
+# minimised inputs on which model and parser once disagreed (model repairs); they run first on every run
+REGRESSIONS = ["A = B(P=-0.a001)", "A = B(P = -0.0x, Q = [-0.0, -0.])", "A = B(x = [[[[[[[[1]]]]]]]])", "A = B(x = [[[[[[[[[[[[a, b], c]]]]]]]]]]])",
+               "A = B(P = trailing  \n)", "A = B(P = a b  , Q = 1)"]
+
+
 def strip_lines(canon):
     return re.sub(r"e\(\d+,", "e(", re.sub(r",\d+,\[", ",[", re.sub(r"arg\(([0-9a-f-]+),\d+,", r"arg(\1,", canon)))
 
@@ -28,7 +33,7 @@ def run(ctx):
     ctx.check_proofs(["MPilot.Props.C10"])
     model = common.Model()
     rng = ctx.rng
-    srcs, expected, kinds = [], [], []
+    srcs, expected, kinds = list(REGRESSIONS), [None] * len(REGRESSIONS), ["regression"] * len(REGRESSIONS)
     for i in range(ctx.budget(120, 6000)):
         ast = render.rand_ast(rng, max_cmds=rng.choice([1, 2, 3, 8]))
         nl = rng.choice(["\n", "\n", "\r\n"])
